@@ -4,6 +4,7 @@ C13: the record file under a write that is cut short — the two steps of
 file system of byte files (`BFS`).
 -/
 import Martian.PostProcess
+import Martian.PostProcessDefs
 
 namespace Martian.PostProcess
 
